@@ -11,6 +11,10 @@ args = [a for a in sys.argv[1:] if not a.startswith('--')]
 opts = dict(a[2:].split('=', 1) for a in sys.argv[1:] if a.startswith('--') and '=' in a)
 seeds = args or sorted(os.listdir(os.path.join(VERIF, 'seeded')))
 tier = opts.get('tier', 'quick')
+import shutil
+import tempfile
+keep = tempfile.mkdtemp(prefix='evid-keep-')
+shutil.copytree(os.path.join(VERIF, 'evidence'), os.path.join(keep, 'evidence'))   # evidence of seeded runs is not evidence
 out = {}
 for sid in seeds:
     d = os.path.join(VERIF, 'seeded', sid)
@@ -28,3 +32,6 @@ for sid in seeds:
     finally:
         subprocess.run(['git', '-C', '/repo', 'checkout', '--', '.'], check=True)
 json.dump(out, open('/tmp/run_seeded.json', 'w'), indent=1)
+shutil.rmtree(os.path.join(VERIF, 'evidence'))
+shutil.copytree(os.path.join(keep, 'evidence'), os.path.join(VERIF, 'evidence'))
+shutil.rmtree(keep)
